@@ -308,7 +308,7 @@ def tasks(tier, seed):
     from ..pyvc.driver import verify
     from ..contracts import curvesv
     # shape-level contracts (all curves, all arguments): a refused removal leaves the three fields unchanged, a successful one keeps INV
-    ts = [(verify, (c, m, q, v)) for c, m, q, v in curvesv.ALL if q in ("Curve.knot_remove", "BaseCurve.update")]
+    ts = curvesv.tasks_for(("Curve.knot_remove", "BaseCurve.update"))
     for sh in tier_shapes(tier):
         for variant, ks, U in con.vectors(sh, tier, seed):
             ts.append((task_remove, (sh, variant, ks, U, False, tier)))
